@@ -31,8 +31,29 @@ class DType(Marker):
 
 
 class Flags:
+    """ndarray.flags: contiguity computed from where the elements lie in the underlying buffer"""
     writeable = True
-    c_contiguous = True
+
+    def __init__(self, a: SArr = None):
+        self.c_contiguous = self.f_contiguous = True
+        if a is None or a.size <= 1:
+            return
+        pos = S.mem_positions(a)
+        self.c_contiguous = all(q - p == 1 for p, q in zip(pos, pos[1:]))
+        real = S.mem_positions(S.transpose(a))        # the same elements in column-major order of a's index
+        self.f_contiguous = all(q - p == 1 for p, q in zip(real, real[1:]))
+
+    @property
+    def contiguous(self):
+        return self.c_contiguous
+
+    @property
+    def fortran(self):
+        return self.f_contiguous and not self.c_contiguous
+
+    @property
+    def forc(self):
+        return self.c_contiguous or self.f_contiguous
 
 
 class SymInterp(Interp):
@@ -130,6 +151,8 @@ class SymInterp(Interp):
                 return v
             if isinstance(n.op, ast.Not):
                 return not self.truth(v)
+            if isinstance(n.op, ast.Invert) and isinstance(v, SArr) and all(x.is_const() and x.const() in (0, 1) for x in v.data):
+                return S.elementwise(lambda a: rat(1) - a, v)       # ~ on a boolean array
         if isinstance(n.op, ast.USub) and isinstance(v, Obj):
             return self.call_method(v, "__neg__")
         if isinstance(n.op, ast.Not):
@@ -268,7 +291,7 @@ class SymInterp(Interp):
         if name == "dtype":
             return DType("np." + {"float": "float64", "int": "int64"}.get(a.dtype, a.dtype))
         if name == "flags":
-            return Flags()
+            return Flags(a)
         if name in ("any", "all"):
             return lambda axis=None, **kw: self.np_attr(name, None)(a)
         if name == "copy":
@@ -296,12 +319,15 @@ class SymInterp(Interp):
             return astype
         if name == "flatten" or name == "ravel":
             def flat(order="C"):
-                if order in ("K", "A") and a._view is not None:
-                    # memory order: the elements in the order they lie in the base array
-                    base, pos = a._view
+                if order == "A" and a._view is not None:
+                    fl = Flags(a)
+                    order = "F" if fl.f_contiguous and not fl.c_contiguous else "C"
+                if order == "K" and a._view is not None:
+                    # memory order: the elements in the order they lie in the underlying buffer
+                    pos = S.mem_positions(a)
                     if len(set(pos)) == len(pos):
                         d = a.data
-                        return SArr((a.size,), [d[i] for i in sorted(range(len(pos)), key=lambda i: pos[i])])
+                        return SArr((a.size,), [d[i] for i in sorted(range(len(pos)), key=lambda i: pos[i])], dtype=a.dtype)
                 if order == "F":
                     return SArr((a.size,), list(S.transpose(a).data))
                 return SArr((a.size,), list(a.data))
@@ -559,9 +585,28 @@ class SymInterp(Interp):
                     raise AnalysisAbort(f"np.{name} over symbolic data")
                 flat = [i for i, v in enumerate(a.data) if v.const() != 0]
                 if name == "flatnonzero":
-                    return SArr((len(flat),), [rat(i) for i in flat])
-                raise AnalysisAbort(f"np.{name} of an n-d array")
+                    return SArr((len(flat),), [rat(i) for i in flat], dtype="int")
+                idxs = [idx for idx, v in zip(a.indices(), a.data) if v.const() != 0]       # row-major order of the logical index
+                return SArr((len(idxs), a.ndim), [rat(i) for idx in idxs for i in idx], dtype="int")
             return fnz
+        if name == "unravel_index":
+            def unravel_index(indices, shape, order="C"):
+                shape = tuple(int(self.idx(s)) for s in shape)
+                flat = S.asarr(indices)
+                if order not in ("C", "F"):
+                    raise NumpyRaise("ValueError", "only 'C' or 'F' order is permitted")
+                cols = [[] for _ in shape]
+                n = S._prod(shape)
+                for v in flat.data:
+                    p = int(self.idx(v))
+                    if not 0 <= p < n:
+                        raise NumpyRaise("ValueError", f"index {p} is out of bounds for array with size {n}")
+                    ax = range(len(shape)) if order == "F" else reversed(range(len(shape)))
+                    for k in ax:
+                        cols[k].append(p % shape[k])
+                        p //= shape[k]
+                return tuple(SArr(flat.shape, [rat(i) for i in c], dtype="int") for c in cols)
+            return unravel_index
         if name == "arange":
             return lambda *a: SArr.from_nested([int(self.idx(x)) for x in range(*[int(self.idx(v)) for v in a])])
         if name == "isnan":
